@@ -112,14 +112,15 @@ void Cache::addRecord(const Record &record)
             }
 
             i = d->entries.erase(i);
-
-            // No need to continue further if the TTL was set to 0
-            if (record.ttl() == 0) {
-                return;
-            }
         } else {
             ++i;
         }
+    }
+
+    // A record with a TTL of 0 only removes matching records (all of them
+    // when the cache-flush bit is set); it is never stored itself
+    if (record.ttl() == 0) {
+        return;
     }
 
     // Use the current time to calculate the triggers and add a random offset
